@@ -239,6 +239,11 @@ func (g *Gen) FaultProgram(opts FaultOpts) *Chunk {
 		CallSN("emit", Str("post:goresume2"), CallN("goresume", Fn([]string{"a"}, false, Blk(CallSN("error", Str("Eres%d")))), Num(6))),
 		CallSN("emit", Str("post:goresume3"), CallN("goresume", Fn([]string{"a"}, false, Blk(Return(Bin("+", N("a"), Num(1)), Str("two")))), Num(7))),
 		CallSN("emit", Str("post:goresume4"), CallN("pcall", N("goresume"), Fn(nil, false, Blk(Local1("z", Bin("+", &ENil{}, Num(1))))))),
+		// an error in a coroutine reaches the protected call around its wrap call as an error, also
+		// after the running coroutine was (rightly) refused through the other entry point
+		CallSN("emit", Str("post:wrap-after-refused"), CallN("pcall", Call(Dot(N("coroutine"), "wrap"), Fn(nil, false, Blk(
+			CallSN("emit", Str("post:self-resume"), &EParen{X: Call(Dot(N("coroutine"), "resume"), Call(Dot(N("coroutine"), "running")))}),
+			CallSN("error", &ETable{Items: []TItem{{Kind: TName, Name: "code", Val: Num(3)}}})))))),
 		CallSN("emit", Str("post:pcall-ok"), CallN("pcall", Fn(nil, false, Blk(Return(Num(1), Num(2)))))),
 		CallSN("emit", Str("post:select"), CallN("select", Str("#"), Num(1), &ENil{}, &ENil{})),
 	)}})
